@@ -33,11 +33,7 @@ def main():
       json.dump({'execs': st['execs'], 'decoded': st['decoded'], 'nontrivial': len(st['nontrivial']), 'failure': st['failure']}, f, default=str)
     os.replace(tmp, spec['stats'])
 
-  def one(data):
-    st['execs'] += 1
-    case = scen.decode(atheris.FuzzedDataProvider(data))
-    if case is None:
-      return
+  def execute(case):
     st['decoded'] += 1
     try:
       info = scen.run(case) or {}
@@ -49,14 +45,32 @@ def main():
       os._exit(77)
     if info.get('nontrivial'):
       st['nontrivial'].add(case_hash(case))
-    if st['execs'] % 2000 == 0:
-      flush()
-    if st['execs'] >= spec['runs']:
+
+  if scen.decode is not None:
+    def feed(data):
+      case = scen.decode(atheris.FuzzedDataProvider(data))
+      if case is not None:
+        execute(case)
+  else:
+    # no hand-written decoder: libFuzzer's bytes drive the scenario's Hypothesis strategy (fuzz_one_input)
+    import hypothesis  # pylint: disable=g-import-not-at-top
+    from hypothesis import given, settings, HealthCheck  # pylint: disable=g-import-not-at-top
+
+    @settings(database=None, deadline=None, suppress_health_check=list(HealthCheck))
+    @given(scen.strategy(spec['tier']))
+    def test(case):
+      execute(case)
+    feed = test.hypothesis.fuzz_one_input
+
+  def one(data):
+    st['execs'] += 1
+    feed(data)
+    if st['execs'] % 500 == 0 or st['execs'] >= spec['runs']:
       flush()
 
   os.makedirs(spec['corpus'], exist_ok=True)
-  argv = [sys.argv[0], f'-runs={spec["runs"]}', f'-seed={spec["seed"] % (2**31 - 1) or 1}', f'-max_len={spec.get("max_len", 64)}',
-          '-print_final_stats=1', spec['corpus']]
+  argv = [sys.argv[0], f'-runs={spec["runs"]}', f'-seed={spec["seed"] % (2**31 - 1) or 1}', f'-max_len={spec.get("max_len", 64 if scen.decode is not None else 2048)}',
+          '-print_final_stats=1'] + ([] if scen.decode is not None else ['-len_control=0']) + [spec['corpus']]
   atheris.Setup(argv, one)
   atheris.Fuzz()
 
